@@ -201,4 +201,3 @@ func tokenOf(d *mtDelta) string {
 	}
 	return c.Args[n-2].LooseString() + "/" + c.Args[n-1].LooseString()
 }
-
